@@ -12,6 +12,9 @@ import (
 	"flag"
 	"fmt"
 	"io/ioutil"
+	"net/http"
+	"net/http/httptest"
+	"net/url"
 	"os"
 	"path/filepath"
 	"sort"
@@ -25,6 +28,8 @@ import (
 	"github.com/getlantern/zenodb/common"
 	"github.com/getlantern/zenodb/core"
 	"github.com/getlantern/zenodb/planner"
+	"github.com/getlantern/zenodb/web"
+	"github.com/gorilla/mux"
 
 	"zverif/zv"
 )
@@ -33,6 +38,8 @@ type Topo struct {
 	Leaders    int `json:"leaders"`
 	Partitions int `json:"partitions"`
 	Replicas   int `json:"replicas"`
+	// ClusterQueryTimeout of the leaders (default 2000)
+	QueryTimeoutMs int `json:"queryTimeoutMs"`
 }
 
 type Cmd struct {
@@ -50,6 +57,11 @@ type Cmd struct {
 	After  int                        `json:"after"`
 	TimeMs int                        `json:"timeMs"`
 	ID     string                     `json:"id"`
+	// C13: the context of a query
+	DeadlineMs int  `json:"deadlineMs"`
+	StallAtRow *int `json:"stallAtRow"`
+	NoDeadline bool `json:"noDeadline"`
+	Web        bool `json:"web"` // also ask through the HTTP API of the leader
 }
 
 type Scenario struct {
@@ -105,6 +117,9 @@ type runner struct {
 	joined   map[string]int           // "l/f" -> join events seen
 	markers  int
 	now      time.Time
+	outst    map[string]int // "l/f" -> query handlers of follower f registered with leader l and not yet taken
+	hrows    map[string]int // follower -> rows its handler passed on during the current query
+	hcalls   map[string]int // follower -> handler invocations during the current query
 }
 
 func (r *runner) emit(line map[string]interface{}) {
@@ -123,10 +138,17 @@ func (r *runner) dbopts(dir string) *zenodb.DBOpts {
 		IterationCoalesceInterval: time.Millisecond,
 		IterationConcurrency:      8,
 		ClusterQueryConcurrency:   100,
-		ClusterQueryTimeout:       2 * time.Second,
+		ClusterQueryTimeout:       r.queryTimeout(),
 		NumPartitions:             r.sc.Topo.Partitions,
 		Panic:                     func(e interface{}) {},
 	}
+}
+
+func (r *runner) queryTimeout() time.Duration {
+	if r.sc.Topo.QueryTimeoutMs > 0 {
+		return time.Duration(r.sc.Topo.QueryTimeoutMs) * time.Millisecond
+	}
+	return 2 * time.Second
 }
 
 func (r *runner) schema() zenodb.Schema {
@@ -202,18 +224,44 @@ func (r *runner) serveQueries(f *fnode, l int, stop chan struct{}) {
 		var once sync.Once
 		handler := func(ctx context.Context, sqlString string, isSubQuery bool, subQueryResults [][]interface{}, unflat bool, onFields core.OnFields, onRow core.OnRow, onFlatRow core.OnFlatRow) (interface{}, error) {
 			defer once.Do(func() { close(used) })
-			r.ctl.Locked(func() {})
+			r.ctl.Locked(func() { r.outst[fmt.Sprintf("%d/%s", l, f.name)]-- })
 			f.mx.Lock()
 			q := f.queryFn
 			f.mx.Unlock()
 			var fault Cmd
 			var has bool
-			r.ctl.Locked(func() { fault, has = r.faults[f.name] })
+			r.ctl.Locked(func() {
+				fault, has = r.faults[f.name]
+				if has && fault.Fault == "retry" {
+					// fails once, before the first row, with a retriable error
+					r.faults[f.name] = Cmd{Fault: "ok"}
+				}
+				if r.hcalls != nil {
+					r.hcalls[f.name]++
+				}
+			})
+			count := func() {
+				r.ctl.Locked(func() {
+					if r.hrows != nil {
+						r.hrows[f.name]++
+					}
+				})
+			}
+			if onRow != nil {
+				orig := onRow
+				onRow = func(key bytemap.ByteMap, vals core.Vals) (bool, error) { count(); return orig(key, vals) }
+			}
+			if onFlatRow != nil {
+				orig := onFlatRow
+				onFlatRow = func(fr *core.FlatRow) (bool, error) { count(); return orig(fr) }
+			}
 			if !has || fault.Fault == "" || fault.Fault == "ok" {
 				return q(ctx, sqlString, isSubQuery, subQueryResults, unflat, onFields, onRow, onFlatRow)
 			}
 			n := 0
 			switch fault.Fault {
+			case "retry":
+				return nil, common.MarkRetriable(fmt.Errorf("injected retriable failure"))
 			case "error":
 				row := func(key bytemap.ByteMap, vals core.Vals) (bool, error) {
 					if n >= fault.After {
@@ -270,6 +318,7 @@ func (r *runner) serveQueries(f *fnode, l int, stop chan struct{}) {
 			return
 		}
 		ldb.RegisterQueryHandler(f.part, handler)
+		r.ctl.Locked(func() { r.outst[fmt.Sprintf("%d/%s", l, f.name)]++ })
 		select {
 		case <-stop:
 			return
@@ -506,6 +555,44 @@ func (r *runner) clusterQuery(l int, sql string, mem bool, timeout time.Duration
 	return line
 }
 
+// webQuery asks the HTTP API in front of leader l (flushed data only, like the
+// real web handler) and reports status, number of rows and statistics.
+func (r *runner) webQuery(l int, sql string) map[string]interface{} {
+	out := map[string]interface{}{}
+	router := mux.NewRouter()
+	stop, err := web.Configure(r.leaders[l], router, &web.Opts{CacheDir: filepath.Join(r.scratch, fmt.Sprintf("webcache-%d", time.Now().UnixNano())),
+		QueryTimeout: 20 * time.Second})
+	if err != nil {
+		out["err"] = err.Error()
+		return out
+	}
+	ts := httptest.NewServer(router)
+	defer ts.Close()
+	defer stop()
+	resp, err := http.Get(ts.URL + "/immediate?" + url.QueryEscape(sql))
+	if err != nil {
+		out["err"] = err.Error()
+		return out
+	}
+	defer resp.Body.Close()
+	out["status"] = resp.StatusCode
+	body, _ := ioutil.ReadAll(resp.Body)
+	if resp.StatusCode == 200 {
+		var qr struct {
+			Rows  []json.RawMessage
+			Stats *common.QueryStats
+		}
+		if err := json.Unmarshal(body, &qr); err != nil {
+			out["err"] = "undecodable body: " + err.Error()
+		} else {
+			out["rows"], out["stats"] = len(qr.Rows), qr.Stats
+		}
+	} else {
+		out["body"] = string(body)
+	}
+	return out
+}
+
 func (r *runner) exec(c *Cmd) error {
 	tick := r.sc.Opts.Tick()
 	switch c.A {
@@ -607,6 +694,11 @@ func (r *runner) exec(c *Cmd) error {
 			r.cut(f, c.L)
 		}
 		r.leaders[c.L] = nil
+		r.ctl.Locked(func() {
+			for name := range r.fol {
+				delete(r.outst, fmt.Sprintf("%d/%s", c.L, name))
+			}
+		})
 		r.closeDB(ldb)
 		if err := r.openLeader(c.L); err != nil {
 			return err
@@ -624,8 +716,63 @@ func (r *runner) exec(c *Cmd) error {
 		r.probe(c.ID)
 	case "QueryFault":
 		r.ctl.Locked(func() { r.faults[c.F] = *c })
+	case "Drain":
+		// handlers are single use and sit in the leader's queue: take the ones of
+		// followers that are to be absent out of it with throw-away queries, then
+		// wait until every other follower has exactly one handler registered
+		for i := 0; i < 12; i++ {
+			need := false
+			r.ctl.Locked(func() {
+				for name, ft := range r.faults {
+					if ft.Fault == "absent" && r.outst[fmt.Sprintf("%d/%s", c.L, name)] > 0 {
+						need = true
+					}
+				}
+			})
+			if !need {
+				break
+			}
+			r.clusterQuery(c.L, "SELECT * FROM "+r.sc.Tables[0].Name, true, stepTimeout)
+		}
+		return r.ctl.WaitCond(2*stepTimeout, "query handlers to be registered", func() bool {
+			for name, f := range r.fol {
+				if f.db == nil {
+					continue
+				}
+				want := 1
+				if r.faults[name].Fault == "absent" {
+					want = 0
+				}
+				if r.outst[fmt.Sprintf("%d/%s", c.L, name)] != want {
+					return false
+				}
+			}
+			return true
+		})
 	case "Query":
-		line := r.clusterQuery(c.L, c.SQL, c.Mem, time.Duration(c.TimeMs)*time.Millisecond+stepTimeout)
+		r.ctl.Locked(func() { r.hrows, r.hcalls = map[string]int{}, map[string]int{} })
+		var line map[string]interface{}
+		if c.NoDeadline || c.DeadlineMs != 0 || c.StallAtRow != nil {
+			o := zv.QueryOpts{DeadlineMs: c.DeadlineMs, StallAtRow: -1}
+			if c.StallAtRow != nil {
+				o.StallAtRow = *c.StallAtRow
+			}
+			n := &zv.Node{DB: r.leaders[c.L], Opts: &r.sc.Opts}
+			rows, stats, err := n.RawQueryOpts(c.SQL, c.Mem, o)
+			line = map[string]interface{}{"raw": rows, "stats": stats}
+			if rows == nil {
+				line["raw"] = []zv.RawRow{}
+			}
+			if err != nil {
+				line["err"] = err.Error()
+			}
+		} else {
+			line = r.clusterQuery(c.L, c.SQL, c.Mem, time.Duration(c.TimeMs)*time.Millisecond+stepTimeout)
+		}
+		r.ctl.Locked(func() {
+			line["handlerRows"], line["handlerCalls"] = r.hrows, r.hcalls
+			r.hrows, r.hcalls = nil, nil
+		})
 		line["a"], line["id"], line["sql"], line["mem"] = "ClusterQuery", c.ID, c.SQL, c.Mem
 		solo, err := r.solo.RawQuery(c.SQL, c.Mem, stepTimeout)
 		line["solo"] = solo
@@ -634,6 +781,9 @@ func (r *runner) exec(c *Cmd) error {
 		}
 		if err != nil {
 			line["soloErr"] = err.Error()
+		}
+		if c.Web {
+			line["web"] = r.webQuery(c.L, c.SQL)
 		}
 		r.emit(line)
 	case "Sleep":
@@ -651,6 +801,7 @@ func (r *runner) run(sc *Scenario) {
 	r.leaders, r.ldirs, r.fol, r.links = map[int]*zenodb.DB{}, map[int]string{}, map[string]*fnode{}, map[string]*link{}
 	r.sigs, r.entries, r.lastSeen, r.included, r.faults = map[int]map[string][]int{}, map[int]int{}, map[int]int{}, map[string]int{}, map[string]Cmd{}
 	r.joined = map[string]int{}
+	r.outst = map[string]int{}
 	r.now = time.Time{}
 	offIdx := map[string]int{}
 	r.ctl.Locked(func() {
